@@ -112,3 +112,26 @@ fn split_first_meta_var(
   };
   Some((var, skipped + i))
 }
+
+/// Verification hooks: re-exports of private kernels (cargo feature `verif-hooks`).
+#[cfg(feature = "verif-hooks")]
+#[doc(hidden)]
+pub mod verif_hooks {
+  pub use super::indent::{
+    extract_with_deindent, formatted_slice, get_indent_at_offset, indent_lines, DeindentedExtract,
+  };
+  /// `split_first_meta_var` with its private result type flattened:
+  /// (0 = single, 1 = multiple, 2 = transformed; name; bytes consumed)
+  pub fn split_first_meta_var(
+    src: &str,
+    meta_char: char,
+    transform: &[String],
+  ) -> Option<(u8, String, usize)> {
+    let (var, len) = super::split_first_meta_var(src, meta_char, transform)?;
+    Some(match var {
+      super::MetaVarExtract::Single(s) => (0, s, len),
+      super::MetaVarExtract::Multiple(s) => (1, s, len),
+      super::MetaVarExtract::Transformed(s) => (2, s, len),
+    })
+  }
+}
